@@ -9,7 +9,9 @@ import (
 	"io"
 	"os"
 	"path/filepath"
+	"reflect"
 	"strings"
+	"unsafe"
 
 	"github.com/openziti/storage/boltz"
 	"go.etcd.io/bbolt"
@@ -146,9 +148,7 @@ func (r *Run) execSnapshot(t *Task, idx int, tx *TxPlan) {
 		rec.id, rec.data, rec.path = id, data, actual
 		if traceHooks {
 			fi, _ := os.Stat(r.path)
-			var hw int64
-			_ = r.db.View(func(tx *bbolt.Tx) error { hw = tx.Size(); return nil })
-			fmt.Printf("TRACE snapshot path=%s actual=%s len=%d mainfile=%d txsize=%d dump=%x\n", path, actual, len(data), fi.Size(), hw, dump.Hash)
+			tracef("TRACE snapshot path=%s actual=%s len=%d mainfile=%d dump=%x\n", path, actual, len(data), fi.Size(), dump.Hash)
 		}
 		rec.meta.SnapshotId = &id
 		rec.meta.Reset = true
@@ -280,10 +280,26 @@ func (r *Run) onRestore(point, task string) {
 	defer r.mu.Unlock()
 	switch point {
 	case "reload.lock.after":
-		if r.btx != nil || r.openViews > 0 {
+		// openViews counts the harness's own read transactions; boltOpenReadTx asks bbolt itself, which also sees the
+		// read transactions the library opens on its own (Snapshot, StreamToWriter, GetSnapshotId, ...)
+		bolt := boltOpenReadTx(r.s.mainDb)
+		if r.btx != nil || r.openViews > 0 || bolt > 0 {
+			n := r.openViews
+			if bolt > n {
+				n = bolt
+			}
 			r.viols = append(r.viols, Violation{Props: []string{"C17"}, Oracle: "snapshot", Sig: "tx-open-while-restore-holds-lock",
-				Detail: fmt.Sprintf("restore holds the reload lock while %d read transaction(s) / write transaction=%v are open", r.openViews, r.btx != nil)})
+				Detail: fmt.Sprintf("restore holds the reload lock while %d read transaction(s) / write transaction=%v are open", n, r.btx != nil)})
 			// going on would close the database under those transactions (and block for real): unwind now
+			r.abortFromHook = true
+		}
+	case "reload.rlock.blocked":
+		// a caller starts to wait for the reload lock while the restore holds it. Whoever waits there must not have a
+		// read transaction open on the database the restore is about to close (the restore would wait for that
+		// transaction, the transaction for the restore)
+		if n := boltOpenReadTx(r.s.mainDb); n > 0 {
+			r.viols = append(r.viols, Violation{Props: []string{"C17"}, Oracle: "snapshot", Sig: "tx-open-while-restore-holds-lock",
+				Detail: fmt.Sprintf("%s waits for the reload lock the restore holds while %d read transaction(s) are open on the database being replaced", task, n)})
 			r.abortFromHook = true
 		}
 	case "reload.unlock.after":
@@ -299,6 +315,30 @@ func (r *Run) onRestore(point, task string) {
 		r.restores++
 		p.seq = r.restores
 	}
+}
+
+// boltOpenReadTx reads bbolt's own count of open read transactions on the database a DbImpl currently points at.
+// It is called from the hook point right after reloadLock.Lock(), on the goroutine that holds the lock, so the field
+// is stable. The field is private to boltz: it is read by reflection, and when that is not possible (a renamed field)
+// the answer is 0 = "nothing seen", never an alarm.
+func boltOpenReadTx(d *boltz.DbImpl) (n int) {
+	defer func() {
+		if recover() != nil {
+			n = 0
+		}
+	}()
+	if d == nil {
+		return 0
+	}
+	f := reflect.ValueOf(d).Elem().FieldByName("db")
+	if !f.IsValid() || f.Kind() != reflect.Pointer || f.IsNil() {
+		return 0
+	}
+	db, ok := reflect.NewAt(f.Type(), unsafe.Pointer(f.UnsafeAddr())).Elem().Interface().(*bbolt.DB)
+	if !ok || db == nil {
+		return 0
+	}
+	return db.Stats().OpenTxN
 }
 
 // checkRestoredDump: dump after restore == dump at snapshot time, ignoring exactly the markers the snapshot
